@@ -92,3 +92,48 @@ Fixpoint assignable (a b : ty) {struct a} : bool :=
    type_spec_is_assignable_to(arg.type_spec(), expected); itxn.py MethodCall likewise for ABI
    arguments (and for the transaction-type argument check). Otherwise TealInputError / TealTypeError. *)
 Definition call_admits (arg_spec param_spec : ty) : bool := assignable arg_spec param_spec.
+
+(* ---- the direct-assignment gates: dst.set(<ABI value>) --------------------------------------
+   Every abi class has its own test in `set` (it does NOT go through type_spec_is_assignable_to).
+   Argument order as in [assignable]: source first.
+     Uint.set(v)          isinstance(v.type_spec(), UintTypeSpec) and bit sizes equal     (uint.py)
+     Bool.set(v)          not (v.type_spec() != self.type_spec())                         (bool.py)
+     Address.set(v)       v.type_spec() == AddressTypeSpec() or == StaticArrayTypeSpec(ByteTypeSpec(), 32)
+     String.set(v)        v.type_spec() == StringTypeSpec()  or == DynamicArrayTypeSpec(ByteTypeSpec())
+     StaticArray.set(v), DynamicArray.set(v) (inherited by StaticBytes / DynamicBytes, which fall
+                          through to super().set for ABI values)   not (self.type_spec() != v.type_spec())
+     Tuple.set( *values)  takes the ELEMENTS: with one ABI value v and a 1-tuple it tests
+                          not (myType != v.type_spec()) for the single member type; any other arity is refused
+     Transaction / reference types have no public set.
+   `x != y` is `not (x == y)` (no class defines __ne__), with the same operand-priority rule. *)
+(* Transaction / reference VALUES refuse encode() (TealInputError), so they cannot be members:
+   _encode_tuple calls encode() on every value after the type test *)
+Definition no_encoding (t : ty) : bool := match t with TTxn _ | TRef _ => true | _ => false end.
+
+Definition set_admits (src dst : ty) : bool :=
+  match dst with
+  | TByte | TUint _ => isinst src C_Uint && N.eqb (uint_size dst) (uint_size src)
+  | TBool => py_eq src dst
+  | TAddress => py_eq src TAddress || py_eq src (TStaticArray TByte 32)
+  | TString => py_eq src TString || py_eq src (TDynArray TByte)
+  | TStaticArray _ _ | TStaticBytes _ | TDynArray _ | TDynBytes => py_eq dst src
+  | TTuple _ [e] => py_eq e src && negb (no_encoding src)
+  | TTuple _ _ => false
+  | TTxn _ | TRef _ => false
+  end.
+
+(* the spec whose encoding the stored bytes must have: the single member for a 1-tuple *)
+Definition set_target (dst : ty) : ty :=
+  match dst with TTuple _ [e] => e | _ => dst end.
+
+(* member assignment: Tuple.set( *values) / Array.set([values]) test  not (memberType != v.type_spec()) *)
+Definition elem_admits (src slot : ty) : bool := py_eq slot src && negb (no_encoding src).
+
+(* dst.set(<ComputedValue producing src>): BaseType._set_with_computed_type tests
+   not (self.type_spec() != produced); Address.set has its own two-way test *)
+Definition computed_admits (src dst : ty) : bool :=
+  match dst with
+  | TAddress => py_eq src TAddress || py_eq src (TStaticArray TByte 32)
+  | TTxn _ | TRef _ => false
+  | _ => py_eq dst src
+  end.
